@@ -28,8 +28,8 @@ using VecU32 = std::vector<std::uint32_t>;
 using VecPair = std::vector<std::pair<std::uint8_t, bool>>;
 using Str = std::string;
 using WStr = std::wstring;  // wide characters: byte length == 4 * characters
-using MapT = std::map<std::uint8_t, std::int16_t>;
-using UMapT = std::unordered_map<std::uint8_t, std::int16_t>;
+using MapT = std::map<std::uint16_t, std::uint8_t>;   // multi-byte key: a cut inside a key leaves bytes that parse as a value
+using UMapT = std::unordered_map<std::uint16_t, std::uint8_t>;
 }  // namespace vt
 
 #define VT_STD(T, t, MAXN)                                                                        \
@@ -45,6 +45,13 @@ using UMapT = std::unordered_map<std::uint8_t, std::int16_t>;
   VT_HARNESS(h_faultw_##t) { vt::lemma_fault_write<T>(); }                                        \
   VT_HARNESS(h_faultr_##t) { vt::lemma_fault_read<T, MAXN>(); }
 
+// small-input variants of the element-wise containers (minutes per job at the full bound): the same lemmas over
+// inputs of at most MAXN bytes, cheap enough for the quick tier
+#define VT_STD_SMALL(T, t, MAXN)                                                                  \
+  VT_HARNESS(h_dec_##t##_ped) { vt::lemma_decode<T, nop::PedanticBufferReader, MAXN, false>(); }  \
+  VT_HARNESS(h_trunc_##t##_ped) { vt::lemma_truncate<T, nop::PedanticBufferReader, MAXN>(); }     \
+  VT_HARNESS(h_cap_##t##_bw) { vt::lemma_capacity<T, nop::BufferWriter, MAXN>(); }
+
 VT_STD(vt::VecU8, vecu8, 7)
 VT_STD(vt::VecU32, vecu32, 16)
 VT_STD(vt::VecPair, vecpair, 12)
@@ -52,3 +59,6 @@ VT_STD(vt::Str, str, 10)
 VT_STD(vt::WStr, wstr, 14)
 VT_STD(vt::MapT, map, 12)
 VT_STD(vt::UMapT, umap, 12)
+VT_STD_SMALL(vt::MapT, map8, 8)
+VT_STD_SMALL(vt::UMapT, umap8, 8)
+VT_STD_SMALL(vt::VecPair, vecpair8, 8)
